@@ -381,12 +381,16 @@ func c09exec(j run.Job, a *run.Acc) {
 				// Readf with custom functions honouring the documented contract
 				k := rc.Intn(5)
 				shorter := rc.Intn(2) == 0
+				noValue := rc.Intn(4) == 0 // a function that skips something (a comment, padding): a match of k bytes without a value
 				np, v := rd.Readf(pos, func(b []byte) ([]byte, int) {
 					if string(b) != string(c[cur:]) {
 						a.Violate("Readf-slice", "Readf-slice", d("Readf", map[string]any{"cursor": cur, "handed": fmt.Sprintf("%q", b)}))
 					}
 					if k == 0 || len(b) < k {
 						return nil, 0
+					}
+					if noValue {
+						return nil, k
 					}
 					if shorter { // value may be shorter than what was read (e.g. unquoting)
 						return b[: k-1 : k-1], k
@@ -402,6 +406,9 @@ func c09exec(j run.Job, a *run.Acc) {
 					wantV := c[cur : cur+k]
 					if shorter {
 						wantV = c[cur : cur+k-1]
+					}
+					if noValue {
+						wantV = nil
 					}
 					if int(np) != base+cur+k || string(v) != string(wantV) {
 						a.Violate("Readf", "Readf", d("Readf", map[string]any{"cursor": cur, "k": k, "got_pos": int(np) - base, "got": fmt.Sprintf("%q", v)}))
@@ -458,7 +465,7 @@ func init() {
 		Finish: func(tier string, a *run.Acc, cov map[string]any) string {
 			cov["rule"] = "case = one file (pieces: ASCII, '_', digits, space, tab, LF, FF, CRLF, lone CR, 2/3/4-byte runes, truncated runes, 0xff, one piece in five an arbitrary byte 0-255; family byte-sweep: each of the 256 byte values after / before / at the end of six words; family long: files of up to ~200 KB made of tokens of hundreds to tens of thousands of bytes, examined at up to 400 positions - ends, token starts, neighbours of the multiples of 256/4096/32768, random - with arguments of 255-7000 bytes; a third of the long files are written to disk and loaded with text.ReadFile) at a base offset varied by 0-3 preceding files, one case in 20 (a third of the long ones) after a file of 64 KiB ... 2^40 bytes (and an optional following file). " +
 				"At EVERY position 0..len (long: the sample): Remaining, IsEOF, ReadRune (14 runes), MatchString/MatchWord (substrings at the cursor, one-bit mutations, over-long strings ending past EOF), " +
-				"ReadRegexp/ReadRegexpSubmatch (18 expressions, oracle = regexp package anchored with \\A on the suffix), Readf (contract-honouring functions, value shorter than read), SkipWhitespaces in 4 modes " +
+				"ReadRegexp/ReadRegexpSubmatch (18 expressions, oracle = regexp package anchored with \\A on the suffix), Readf (contract-honouring functions: value as long as, shorter than, or absent for what was read), SkipWhitespaces in 4 modes " +
 				"are compared with loop-and-compare specifications: match => new = old + matched length <= EOF and returned bytes equal the file's, mismatch => old position; an out-of-bounds access shows as a panic. " +
 				"non-trivial = non-empty file; distinct = (raw content, base offset)"
 			if a.Counters["positions"] == 0 {
